@@ -8,9 +8,19 @@
    Per task (struct uftrace_task_reader): `fstack_set`, `stack_count`,
    `display_depth`, `fork_display_depth`, `func_stack[]` with `addr`,
    `total_time` (start time while the call is open, duration after its EXIT)
-   and `valid`.  Not modelled: `func_stack` overflow beyond `max_stack`,
-   exec/setjmp/longjmp fixups, LOST/EVENT records, 64-bit wrap of time
-   differences (`Nat` subtraction truncates instead).  Core-only. -/
+   and `valid`.
+
+   First half (`replay`): the stream without exec/setjmp/longjmp records, fork-like
+   functions given as a set of addresses.  Second half (`replayX`): the replay-time
+   fix-ups of fstack_entry/fstack_update as coded -- the symbol-name classification
+   (`fixup_syms`, whole-name match, then the strncmp/strstr cascade), exec (stack and
+   display depth reset to 0), setjmp/longjmp (ONE global `setjmp_depth`/`setjmp_count`
+   pair shared by all tasks), fork/vfork/daemon (`fork_display_depth`), no folding of
+   an exec/longjmp entry (fstack_skip returns NULL) -- plus three repair flags for the
+   findings C06-FORK-LATEST, C06-TID-ORPHAN and C06-EXEC-FAILED (`Fixes`).
+
+   Not modelled: `func_stack` overflow beyond `max_stack`, LOST/EVENT records,
+   64-bit wrap of time differences (`Nat` subtraction truncates instead).  Core-only. -/
 import Uft.Model.Merge
 namespace Uft.Replay
 open Uft.Merge
@@ -236,5 +246,140 @@ def remainingOf (s : TaskSt) : List (Nat × Nat) :=
 def remaining (n : Nat) (g : G) : List (Nat × List (Nat × Nat)) :=
   (List.range n).filterMap (fun i =>
     if zeroCount (g i) = (g i).stackCount then none else some (i, remainingOf (g i)))
+
+/-! ## replay-time fix-ups (fstack_entry / fstack_update / fstack_skip) -/
+
+/-- how fstack_entry treats a function found in `sess->fixups` -/
+inductive Fix where
+  | none | exec | setjmp | longjmp | fork
+deriving DecidableEq, Repr, Inhabited
+
+/-- `strstr(hay, needle) != NULL` for strings without NUL -/
+def strstr : List Char → List Char → Bool
+  | [], n => n.isEmpty
+  | c :: cs, n => n.isPrefixOf (c :: cs) || strstr cs n
+
+/-- `fixup_syms[]` (fstack.c:398): build_fixup_filter registers each of them with
+    PATT_SIMPLE, i.e. `match_filter_pattern` is `!strcmp(patt, sym->name)`: only a symbol
+    whose whole name is in this table gets an entry in `sess->fixups`. -/
+def fixupSyms : List String :=
+  ["execl", "execlp", "execle", "execv", "execve", "execvp", "execvpe",
+   "setjmp", "_setjmp", "sigsetjmp", "__sigsetjmp",
+   "longjmp", "siglongjmp", "__longjmp_chk",
+   "fork", "vfork", "daemon", "posix.fork"]
+
+/-- the `if … else if …` cascade of fstack_entry (fstack.c:642-654) on `fixup->name` -/
+def cascade (name : String) : Fix :=
+  if "exec".toList.isPrefixOf name.toList then .exec            -- !strncmp(name, "exec", 4)
+  else if strstr name.toList "setjmp".toList then .setjmp
+  else if strstr name.toList "longjmp".toList then .longjmp
+  else if strstr name.toList "fork".toList || name == "daemon" || name == "posix.fork" then .fork
+  else .none
+
+/-- what replay does with a function called `name` -/
+def classifyName (name : String) : Fix :=
+  if fixupSyms.contains name then cascade name else .none
+
+/-- the repairs proposed for /repo; `false` = the code as it is without the patch -/
+structure Fixes where
+  /-- C06-FORK-LATEST: fstack_entry also remembers `fork_stack_count`; a child corrects the
+      inherited depth by its own first `stack_count` -/
+  forkLatest : Bool := false
+  /-- C06-TID-ORPHAN: a forked task that inherits nothing starts at `display_depth = stack_count` -/
+  orphan : Bool := false
+  /-- C06-EXEC-FAILED: fstack_update saves depth and stack count at an exec*() entry; an EXIT that
+      arrives with nothing on the stack (exec returned, i.e. failed) takes them up again -/
+  execFail : Bool := false
+deriving DecidableEq, Repr, Inhabited
+
+/-- the reader's whole state: the tasks, `fork_stack_count` per task (only read when
+    `forkLatest`), `task->t->ppid != 0` per task, the `exec_pending` state per task
+    (`exec_display_depth`, `exec_stack_count`; only read when `execFail`) and the two
+    file-level statics -/
+structure W where
+  g : G
+  fc : Nat → Nat
+  forked : Nat → Bool
+  xp : Nat → Option (Nat × Nat)
+  sjDepth : Nat
+  sjCount : Nat
+
+def updN (f : Nat → Nat) (i v : Nat) : Nat → Nat := fun j => if j = i then v else f j
+def updO (f : Nat → Option (Nat × Nat)) (i : Nat) (v : Option (Nat × Nat)) : Nat → Option (Nat × Nat) :=
+  fun j => if j = i then v else f j
+
+def isForkOf (cls : Nat → Fix) : Nat → Bool := fun a => cls a == .fork
+/-- FSTACK_FL_EXEC or FSTACK_FL_LONGJMP gets set -/
+def jumps (cls : Nat → Fix) (a : Nat) : Bool := cls a == .exec || cls a == .longjmp
+
+/-- the display depth a task gets at its first record (0 = none), fstack.c:1918-1940 -/
+def inhX (fx : Fixes) (w : W) (i : Nat) (r : Rec) : Nat :=
+  match (w.g i).parent with
+  | some p =>
+    if (w.g p).forkDisp = 0 then (if fx.orphan && w.forked i then firstCount r else 0)
+    else if fx.forkLatest then (w.g p).forkDisp + firstCount r - w.fc p
+    else (w.g p).forkDisp
+  | none => if fx.orphan && w.forked i then firstCount r else 0
+
+/-- the task as fstack_account_time sees it: with `execFail`, an EXIT that finds the stack empty
+    while an exec is pending is that exec's return -/
+def restoreX (fx : Fixes) (w : W) (i : Nat) (r : Rec) : TaskSt :=
+  match w.xp i with
+  | some (d, c) =>
+    if fx.execFail && r.exit && (w.g i).stackCount == 0 then { w.g i with disp := d, stackCount := c } else w.g i
+  | none => w.g i
+
+/-- fstack_consume of the record `r` of task `i` -/
+def consumeX (fx : Fixes) (w : W) (i : Nat) (r : Rec) : TaskSt :=
+  consume (inhX fx w i r) (restoreX fx w i r) r
+
+/-- fstack_entry's fix-up branch for the statics and `fork_stack_count`, fstack_update's for
+    `exec_pending`; `s` = the task after `consume` -/
+def noteW (cls : Nat → Fix) (w : W) (i : Nat) (s : TaskSt) (r : Rec) : W :=
+  match cls r.addr with
+  | .setjmp => { w with sjDepth := s.disp + 1, sjCount := s.stackCount, xp := updO w.xp i none }
+  | .fork => { w with fc := updN w.fc i s.stackCount, xp := updO w.xp i none }
+  | .exec => { w with xp := updO w.xp i (some (s.disp + 1, s.stackCount)) }
+  | _ => { w with xp := updO w.xp i none }
+
+/-- fstack_update(ENTRY) -/
+def entryStateX (cls : Nat → Fix) (w : W) (s : TaskSt) (r : Rec) : TaskSt :=
+  match cls r.addr with
+  | .exec => { s with disp := 0, stackCount := 0 }
+  | .longjmp => { s with disp := w.sjDepth, stackCount := w.sjCount }
+  | _ => entryState (isForkOf cls) s r
+
+/-- an ENTRY shown as `name() {` -/
+def entryW (cls : Nat → Fix) (w : W) (i : Nat) (s : TaskSt) (r : Rec) : W :=
+  { noteW cls w i s r with g := upd w.g i (entryStateX cls w s r) }
+
+def exitW (w : W) (i : Nat) (s : TaskSt) : W := { w with g := upd w.g i (exitState s), xp := updO w.xp i none }
+
+/-- an ENTRY folded with its EXIT -/
+def leafW (cls : Nat → Fix) (w : W) (i : Nat) (s s2 : TaskSt) (r : Rec) : W :=
+  { noteW cls w i s r with g := upd w.g i (leafState (isForkOf cls) s s2 r) }
+
+/-- command_replay's main loop with the fix-ups -/
+def replayX (fx : Fixes) (cls : Nat → Fix) (mergeOn : Bool) : W → List (Nat × Rec) → W × List Ev
+  | w, [] => (w, [])
+  | w, [(i, r)] =>
+    let s := consumeX fx w i r
+    if r.exit then (exitW w i s, [exitEv i s r]) else (entryW cls w i s r, [entryEv i s r])
+  | w, (i, r) :: (j, x) :: rest =>
+    let s := consumeX fx w i r
+    if r.exit then
+      let out := replayX fx cls mergeOn (exitW w i s) ((j, x) :: rest)
+      (out.1, exitEv i s r :: out.2)
+    else if mergeOn && !jumps cls r.addr && foldsWith i r j x then
+      let s2 := consume 0 s x
+      let out := replayX fx cls mergeOn (leafW cls w i s s2 r) rest
+      (out.1, leafEv i s s2 r :: out.2)
+    else
+      let out := replayX fx cls mergeOn (entryW cls w i s r) ((j, x) :: rest)
+      (out.1, entryEv i s r :: out.2)
+
+def w0 (parents : List (Option Nat)) (forked : List Bool) : W :=
+  { g := g0 parents, fc := fun _ => 0, forked := fun i => forked.getD i false, xp := fun _ => none,
+    sjDepth := 0, sjCount := 0 }
 
 end Uft.Replay
